@@ -1,10 +1,16 @@
 package main
 
 import (
+	"encoding/json"
 	"fmt"
 	"go/token"
 	"go/types"
+	"os"
+	"os/exec"
+	"path/filepath"
 	"sort"
+	"strings"
+	"sync"
 
 	"golang.org/x/tools/go/ssa"
 )
@@ -91,6 +97,220 @@ func isInteger(t types.Type) bool {
 	return ok && b.Info()&types.IsInteger != 0
 }
 
+// ---------------------------------------------------------------------------
+// Self-test (thorough tier): seeded variants of /repo in scratch copies.
+
+type variantEdit struct {
+	File string `json:"file"`
+	Old  string `json:"old"`
+	New  string `json:"new"`
+}
+
+type variant struct {
+	Name   string        `json:"name"`
+	Props  []string      `json:"props"`
+	Edits  []variantEdit `json:"edits"`
+	Expect string        `json:"expect"` // "violation" | "silent"
+	Rule   string        `json:"rule"`   // substring expected in a reported obligation id (for violations)
+	Note   string        `json:"note"`
+}
+
+func loadVariants(verif string) ([]variant, error) {
+	var all []variant
+	files, _ := filepath.Glob(filepath.Join(verif, "twcheck", "selftest", "*.json"))
+	sort.Strings(files)
+	for _, f := range files {
+		b, err := os.ReadFile(f)
+		if err != nil {
+			return nil, err
+		}
+		var vs []variant
+		if err := json.Unmarshal(b, &vs); err != nil {
+			return nil, fmt.Errorf("%s: %w", f, err)
+		}
+		all = append(all, vs...)
+	}
+	return all, nil
+}
+
+// applyVariant copies repo (without .git) to a scratch directory and applies the edits.
+func applyVariant(repo string, v variant) (string, error) {
+	dir, err := os.MkdirTemp("", "twvariant-")
+	if err != nil {
+		return "", err
+	}
+	cp := exec.Command("cp", "-r", repo+"/.", dir)
+	if out, err := cp.CombinedOutput(); err != nil {
+		return dir, fmt.Errorf("copy: %v %s", err, out)
+	}
+	os.RemoveAll(filepath.Join(dir, ".git"))
+	for _, e := range v.Edits {
+		p := filepath.Join(dir, e.File)
+		b, err := os.ReadFile(p)
+		if err != nil {
+			return dir, err
+		}
+		if !strings.Contains(string(b), e.Old) {
+			return dir, fmt.Errorf("edit anchor not found in %s: %q", e.File, firstLine(e.Old))
+		}
+		nb := strings.Replace(string(b), e.Old, e.New, 1)
+		if err := os.WriteFile(p, []byte(nb), 0o644); err != nil {
+			return dir, err
+		}
+	}
+	return dir, nil
+}
+
+func firstLine(s string) string {
+	if i := strings.Index(s, "\n"); i >= 0 {
+		return s[:i]
+	}
+	return s
+}
+
+// runVariant returns the checker's output on the variant for prop and the exit code.
+func runVariant(repo, verif, prop string, v variant) (string, int, error) {
+	dir, err := applyVariant(repo, v)
+	if dir != "" {
+		defer os.RemoveAll(dir)
+	}
+	if err != nil {
+		return "", 0, err
+	}
+	self, err := os.Executable()
+	if err != nil {
+		return "", 0, err
+	}
+	cmd := exec.Command(self, "-prop", prop, "-tier", "quick", "-repo", dir, "-verif", verif, "-no-evidence")
+	cmd.Env = append(cleanEnv(), "TWCHECK_VARIANT=1")
+	out, err := cmd.CombinedOutput()
+	code := 0
+	if ee, ok := err.(*exec.ExitError); ok {
+		code = ee.ExitCode()
+	} else if err != nil {
+		return string(out), 0, err
+	}
+	return string(out), code, nil
+}
+
 func runSelfTest(repo, verif, prop string) selfTestResult {
-	return selfTestResult{summary: "no variants registered"}
+	vs, err := loadVariants(verif)
+	if err != nil {
+		return selfTestResult{summary: "cannot load variants: " + err.Error(), broken: true}
+	}
+	type res struct {
+		v    variant
+		ok   bool
+		note string
+	}
+	var mine []variant
+	for _, v := range vs {
+		for _, p := range v.Props {
+			if p == prop {
+				mine = append(mine, v)
+			}
+		}
+	}
+	if len(mine) == 0 {
+		return selfTestResult{summary: "no variants registered for " + prop}
+	}
+	results := make([]res, len(mine))
+	sem := make(chan struct{}, 6)
+	var wg sync.WaitGroup
+	for i, v := range mine {
+		wg.Add(1)
+		go func(i int, v variant) {
+			defer wg.Done()
+			sem <- struct{}{}
+			defer func() { <-sem }()
+			out, code, err := runVariant(repo, verif, prop, v)
+			r := res{v: v}
+			switch {
+			case err != nil:
+				r.note = "could not run: " + err.Error()
+			case code == 2:
+				r.note = "variant does not load/type-check or checker failed: " + lastLines(out, 3)
+			case v.Expect == "violation":
+				r.ok = code == 1 && strings.Contains(out, "VIOLATION property="+prop) && (v.Rule == "" || strings.Contains(out, v.Rule))
+				if !r.ok {
+					r.note = fmt.Sprintf("expected a violation mentioning %q, got exit %d", v.Rule, code)
+				}
+			case v.Expect == "silent":
+				r.ok = code == 0
+				if !r.ok {
+					r.note = "expected silence (behaviour-preserving variant), got: " + lastLines(out, 4)
+				}
+			}
+			results[i] = r
+		}(i, v)
+	}
+	wg.Wait()
+	nOK := 0
+	var fails []string
+	for _, r := range results {
+		if r.ok {
+			nOK++
+		} else {
+			fails = append(fails, r.v.Name+": "+r.note)
+		}
+	}
+	sum := fmt.Sprintf("%d/%d seeded variants behaved as expected (breaking variants reported, benign variants silent)", nOK, len(results))
+	if len(fails) > 0 {
+		sum += "; FAILED: " + strings.Join(fails, " || ")
+	}
+	return selfTestResult{summary: sum, broken: len(fails) > 0}
+}
+
+func lastLines(s string, n int) string {
+	ls := strings.Split(strings.TrimSpace(s), "\n")
+	if len(ls) > n {
+		ls = ls[len(ls)-n:]
+	}
+	return strings.Join(ls, " | ")
+}
+
+// runVariantCLI: `twcheck -variant <name|all> [-prop P]` prints what the checker says on seeded variants.
+func runVariantCLI(repo, verif, name, prop string) int {
+	vs, err := loadVariants(verif)
+	if err != nil {
+		fmt.Println(err)
+		return 2
+	}
+	bad := 0
+	for _, v := range vs {
+		if name != "all" && v.Name != name {
+			continue
+		}
+		for _, p := range v.Props {
+			if prop != "" && prop != p {
+				continue
+			}
+			out, code, err := runVariant(repo, verif, p, v)
+			ok := err == nil && ((v.Expect == "violation" && code == 1 && (v.Rule == "" || strings.Contains(out, v.Rule))) || (v.Expect == "silent" && code == 0))
+			status := "ok  "
+			if !ok {
+				status = "FAIL"
+				bad++
+			}
+			fmt.Printf("%s %-60s %s expect=%s exit=%d err=%v\n", status, v.Name, p, v.Expect, code, err)
+			if !ok || name != "all" {
+				for _, l := range strings.Split(out, "\n") {
+					if strings.Contains(l, "VIOLATED") || strings.Contains(l, "UNDECIDED") || strings.Contains(l, "twcheck:") {
+						fmt.Println("      ", truncate(l, 220))
+					}
+				}
+			}
+		}
+	}
+	if bad > 0 {
+		return 1
+	}
+	return 0
+}
+
+func truncate(s string, n int) string {
+	if len(s) > n {
+		return s[:n] + "..."
+	}
+	return s
 }
